@@ -32,13 +32,19 @@ def run(R):
             other = [call.origin(a) for a in t['args']]
             okh = any(term_contains(o, lambda x: x and x[0] == 'const' and x[1] == 'https') for o in other)
         R.check(len(eq) == 1 and okh, 'C15.R1', 'is_https-definition', site(call), 'is_https = uri.scheme_str() == Some("https"): %r' % okh)
-        inner = [c for c in tonic.bodies if c.path.startswith(call.path + '::') and c.kind == 'coroutine']
+        # the future that establishes the connection: an async block of call(), or the coroutine of an async helper it instantiates
+        inner = [c for c in family(tonic, call) if c.kind == 'coroutine']
         tgt = [c for c in inner if c.calls(name='connect') or c.calls(pat='BoxedIo', name='new')]
         if len(tgt) != 1:
             raise CheckError('UNRECOGNISED: %d inner coroutines with the connect logic' % len(tgt))
         co = tgt[0]
         R.saw(co)
-        sw = [bb for bb in sorted(co.live_blocks()) if co.term(bb)['k'] == 'switch' and 'is_https' in show(co.origin(co.term(bb)['on']))]
+        # the https flag by what it is (the scheme comparison made in call(), followed through the captures), not by its name
+        def is_https_flag(t_):
+            r_ = resolve_env(tonic, co, t_)
+            return term_contains(r_, lambda x: is_call(x, name='eq') and term_contains(x, lambda y: is_call(y, name='scheme_str')))
+        tlsf = [f_['n'] for f_ in tonic.adt('channel::service::connector::Connector')['variants'][0]['fields'] if 'TlsConnector' in f_['ty']]
+        sw = [bb for bb in sorted(co.live_blocks()) if co.term(bb)['k'] == 'switch' and is_https_flag(co.origin(co.term(bb)['on']))]
         if len(sw) != 1:
             raise CheckError('UNRECOGNISED: %d switches on is_https' % len(sw))
         edges = co.switch_edges(sw[0])
@@ -61,7 +67,7 @@ def run(R):
                     R.check(term_contains(v, lambda x: is_call(x, name='connect') and 'TlsConnector' in x[1]), 'C15.R1', 'https-ok-is-tls-io', site(co, bb), 'Ok value on the https edge = %s' % show(v)[:100])
         errs = [bb for bb, t in co.calls() if 'HttpsUriWithoutTlsSupport' in show(co.origin(t['args'][0]) if t['args'] else ('x',))]
         hs = [x for x in mirlib.aggregates(co) if (x[3].get('adt') or '').endswith('HttpsUriWithoutTlsSupport')]
-        R.check(len(hs) == 1 and any(tm[0] == 'discr' and 'tls' in show(tm) and vals in ([0], ['else']) for s, vals, tm in co.edge_guards(hs[0][0])) and hs[0][0] in https_reach, 'C15.R1', 'no-config->error', site(co), 'https without a TLS config -> Err(HttpsUriWithoutTlsSupport)')
+        R.check(len(hs) == 1 and any(tm[0] == 'discr' and len(tlsf) == 1 and mentions_field(resolve_env(tonic, co, tm), tlsf[0]) and vals in ([0], ['else']) for s, vals, tm in co.edge_guards(hs[0][0])) and hs[0][0] in https_reach, 'C15.R1', 'no-config->error', site(co), 'https without a TLS config -> Err(HttpsUriWithoutTlsSupport)')
         if conn:
             g = co.edge_guards(conn[0][0])
             R.check(any(s == sw[0] and vals != [0] for s, vals, tm in g), 'C15.R1', 'tls-on-https-edge', site(co, conn[0][0]), 'TlsConnector::connect on the https edge')
